@@ -76,6 +76,69 @@ def never_alters(prog, rep):
     rep.ok("NO-CLOBBER", fi.short, "reachable callees", f"{sorted(x.short for x in seen if x is not fi)} write no files", fi.loc())
 
 
+def _name_template(e, app):
+    """file-name expression -> template text with the application name written <A>, or None"""
+    if isinstance(e, ast.Constant) and isinstance(e.value, str):
+        return e.value
+    if isinstance(e, ast.Name) and e.id == app:
+        return "<A>"
+    if isinstance(e, ast.JoinedStr):
+        out = ""
+        for v in e.values:
+            if isinstance(v, ast.Constant):
+                out += str(v.value)
+            elif isinstance(v, ast.FormattedValue) and v.format_spec is None and v.conversion == -1:
+                t = _name_template(v.value, app)
+                if t is None:
+                    return None
+                out += t
+            else:
+                return None
+        return out
+    if isinstance(e, ast.BinOp) and isinstance(e.op, ast.Add):
+        a, b = _name_template(e.left, app), _name_template(e.right, app)
+        return None if a is None or b is None else a + b
+    if isinstance(e, ast.Call) and isinstance(e.func, ast.Attribute) and e.func.attr == "format" and isinstance(e.func.value, ast.Constant) and isinstance(e.func.value.value, str) and len(e.args) == 1 and not e.keywords:
+        t = _name_template(e.args[0], app)
+        return None if t is None else e.func.value.value.replace("{}", t).replace("{0}", t)
+    return None
+
+
+def config_path(prog, rep):
+    rep.rule("PATH", "the file load_config_toml consults and creates is <config dir of the application>/<application name>.toml, the name being the application name followed by '.toml' (concatenation / f-string / format); suffix-replacing operations (Path.with_suffix, os.path.splitext, .stem) change the name of applications whose name contains a dot")
+    from ..trace import deep
+
+    for fname in ("load_config_toml", "save_config_toml"):
+        fi = prog.func(fname)
+        app = fi.params[0]
+        opens = [c for c in walk_with_nested_exprs(fi.node) if isinstance(c, ast.Call) and norm(c.func) == "open" and c.args]
+        if not opens:
+            rep.undecided("PATH", fi.short, "config file", "no open() call", fi.loc())
+            continue
+        paths = {norm(deep(c.args[0], fi)): deep(c.args[0], fi) for c in opens}
+        for txt, e in paths.items():
+            bad = [n for n in ast.walk(e) if (isinstance(n, ast.Attribute) and n.attr in ("with_suffix", "splitext", "stem", "with_name")) ]
+            if bad:
+                rep.violation("PATH", fi.short, "config file name", f"the config file path is `{txt[:110]}`: `{bad[0].attr}` REPLACES whatever follows the last dot of the application name, so for an application called e.g. 'aw-watcher-demo.v2' the file consulted is 'aw-watcher-demo.toml': the user's file is ignored and a second file is created next to it", fi.loc(opens[0]), expected="os.path.join(config_dir, f'{appname}.toml')", found=txt[:160])
+                continue
+            inner = e
+            if isinstance(inner, ast.Call) and norm(inner.func) == "str" and len(inner.args) == 1:
+                inner = inner.args[0]
+            d_expr = n_expr = None
+            if isinstance(inner, ast.Call) and norm(inner.func) in ("os.path.join", "Path", "pathlib.Path", "PurePath") and len(inner.args) == 2:
+                d_expr, n_expr = inner.args
+            elif isinstance(inner, ast.BinOp) and isinstance(inner.op, ast.Div):
+                d_expr, n_expr = inner.left, inner.right
+                if isinstance(d_expr, ast.Call) and norm(d_expr.func) in ("Path", "pathlib.Path") and len(d_expr.args) == 1:
+                    d_expr = d_expr.args[0]
+            tmpl = _name_template(n_expr, app) if n_expr is not None else None
+            okd = d_expr is not None and norm(d_expr) in (f"dirs.get_config_dir({app})", f"get_config_dir({app})")
+            if tmpl is None or d_expr is None:
+                rep.undecided("PATH", fi.short, "config file name", f"cannot read the file name off `{txt[:110]}`", fi.loc(opens[0]))
+            else:
+                rep.check(okd and tmpl == "<A>.toml", "PATH", fi.short, "config file name", "<config dir>/<appname>.toml", f"the config file is `{txt[:110]}` (name template {tmpl!r}), not <config dir of {app}>/{app}.toml", fi.loc(opens[0]), expected="<A>.toml", found=tmpl)
+
+
 def overlay(prog, rep):
     rep.rule("OVERLAY", "_merge(a, b): iterates over every key of b; key absent in a => a[key] = b[key]; both values dicts => recursive _merge(a[key], b[key]) in the same order; otherwise a[key] = b[key] (or left alone when equal); no key of a is ever deleted; returns a.  load_config_toml calls _merge(parsed defaults, parsed user file) in that order and returns the result")
     fi = prog.func("_merge")
@@ -262,6 +325,7 @@ def check(prog, rep):
     rep.trusted_base = ["tomlkit.parse returns dict-like containers", "os.path.isfile / open semantics"]
     rep.not_decided = ["TOML semantics of multi-line values (the property restricts to one-line values)", "tomlkit container behaviour"]
     never_alters(prog, rep)
+    config_path(prog, rep)
     overlay(prog, rep)
     first_run(prog, rep)
 
@@ -279,6 +343,8 @@ VARIANTS = [
     ("B first-run file is the live defaults", C, "            f.write(_comment_out_toml(default_config))", "            f.write(default_config)", "FIRST-RUN"),
     ("B headers commented out too", C, 'if line.strip() and not line.strip().startswith("[") else line', "if line.strip() else line", "FIRST-RUN"),
     ("B falsy user values skipped", C, "    for key in b:\n        if key in a:", "    for key in b:\n        if not b[key]:\n            continue\n        if key in a:", "OVERLAY"),
+    ("B config path through Path.with_suffix", C, '    config_file_path = os.path.join(config_dir, f"{appname}.toml")\n\n    # Run early', '    config_file_path = str(__import__("pathlib").Path(config_dir, appname).with_suffix(".toml"))\n\n    # Run early', "PATH"),
+    ("OK config path by concatenation", C, '    config_file_path = os.path.join(config_dir, f"{appname}.toml")\n\n    # Run early', '    config_file_path = os.path.join(config_dir, appname + ".toml")\n\n    # Run early', "ok"),
     ("OK exists instead of isfile", C, "    if os.path.isfile(config_file_path):", "    if os.path.exists(config_file_path):", "ok"),
     ("OK inverted test", C, "    if os.path.isfile(config_file_path):\n        with open(config_file_path) as f:\n            config = f.read()\n        config_toml = tomlkit.parse(config)\n    else:\n        # If file doesn't exist, write with commented-out default config\n        with open(config_file_path, \"w\") as f:\n            f.write(_comment_out_toml(default_config))\n        config_toml = dict()\n", "    if not os.path.isfile(config_file_path):\n        with open(config_file_path, \"w\") as f:\n            f.write(_comment_out_toml(default_config))\n        config_toml = dict()\n    else:\n        with open(config_file_path) as f:\n            config = f.read()\n        config_toml = tomlkit.parse(config)\n", "ok"),
     ("OK equal-leaf branch removed", C, "            elif a[key] == b[key]:\n                pass  # same leaf value\n", "", "ok"),
